@@ -12,7 +12,7 @@ RULE = ("one evaluation = one well-formed tree encoded by WriteEncoder and decod
         "non-trivial = has attribute/child/content and uses a non-token string or a size/list boundary class; distinct by tree hash")
 ASSUMPTIONS = ["inputs are well-formed per the quantifier (non-empty Latin-1 strings not ending in '@', reserved words excluded)",
                "ProtocolTreeNode.__eq__ is not used as oracle; it is only required to answer True for trees found equal"]
-REQUIRED = ["trees_scribbled", "roundtrips", "layer_roundtrips", "feature:bin31", "feature:bin20", "feature:list16", "feature:hdr16",
+REQUIRED = ["stream_end_frames", "trees_scribbled", "roundtrips", "layer_roundtrips", "feature:bin31", "feature:bin20", "feature:list16", "feature:hdr16",
             "feature:s:token2", "feature:s:jid", "feature:s:nibble<128", "feature:s:hex<128"]
 TIMEOUT = {"quick": 900, "thorough": 7200}
 
@@ -114,6 +114,21 @@ def check_tree(acc, cid, tree, enc, dec, via_layer=True):
     # attribute, hang a child on it, replace its content - must not show in any tree decoded or built later. Every later case
     # is compared with plain data, so anything shared between node objects surfaces there.
     _scribble_counter[0] += 1
+    if _scribble_counter[0] % 11 == 0:
+        # between two stanzas the peer may close the stream (the stream-end frame: a list of one token, 2), e.g. before a
+        # reconnect over which the same decoder / coder layer lives on: whatever is decoded afterwards is judged as before
+        try:
+            end = dec.getProtocolTreeNode([0, 248, 1, 2])
+            if end is not None:
+                acc.violation("stream-end-decodes-to-node", "the stream-end frame decoded to %r" % (end,), w)
+            sa, wire, sb, sink = coder_pair()
+            sink.clear()
+            sb.receive(bytes([0, 248, 1, 2]))
+            if sink.received:
+                acc.violation("stream-end-delivered", "the receiving coder layer delivered %d stanzas for a stream-end frame" % len(sink.received), w)
+            acc.count("stream_end_frames")
+        except Exception as e:  # noqa
+            acc.violation("stream-end-raises:%s" % type(e).__name__, "a stream-end frame between stanzas raised %r" % (e,), w)
     if _scribble_counter[0] % 7 == 0:
         try:
             from yowsup.structs import ProtocolTreeNode
